@@ -4,6 +4,10 @@ PWM = 'lightmotif/src/pwm/mod.rs'
 
 DENSE = 'lightmotif/src/dense.rs'
 
+SCAN = 'lightmotif/src/scan.rs'
+
+AVX2 = 'lightmotif/src/pli/platform/avx2.rs'
+
 MUTANTS = [
     # ---- C05
     dict(id='c05-accept-lowercase', prop='C05', rule='R5.1', file=ABC, old="b'N' => Ok(Nucleotide::N),", new="b'N' | b'n' => Ok(Nucleotide::N),"),
@@ -19,6 +23,36 @@ MUTANTS = [
     dict(id='c10-complement-both', prop='C10', rule='R10.2', file=PWM, old="data[i][s.as_index()] = row[A::complement(s).as_index()];", new="data[i][A::complement(s).as_index()] = row[A::complement(s).as_index()];", occ=1),
     dict(id='c10-complement-none', prop='C10', rule='R10.2', file=PWM, old="data[i][s.as_index()] = row[A::complement(s).as_index()];", new="data[i][s.as_index()] = row[s.as_index()];", occ=3),
     dict(id='c10-rev-outside-enumerate', prop='C10', rule='R10.2', file=PWM, old="for (i, row) in self.data.iter().rev().enumerate() {", new="for (i, row) in self.data.iter().enumerate().rev() {", occ=0),
+    # ---- C02 / C03
+    dict(id='c02-unwrap-back', prop='C02', rule='R2.1', file=SCAN, old="if self.pipeline.max(&self.dscores).map_or(false, |m| m >= t) {", new="if self.pipeline.max(&self.dscores).unwrap() >= t {"),
+    dict(id='c02-bound-removed', prop='C02', rule='R2.2', file=SCAN, old="if index < self.dscores.max_index() {", new="if index <= self.dscores.max_index() {"),
+    dict(id='c02-bound-wrong-var', prop='C02', rule='R2.2', file=SCAN, old="if index < self.dscores.max_index() {", new="if c.row < self.dscores.max_index() {"),
+    dict(id='c02-drop-block-offset', prop='C02', rule='R2.3', file=SCAN, old="let index = c.col * (seq.matrix().rows() - seq.wrap()) + self.row + c.row;", new="let index = c.col * (seq.matrix().rows() - seq.wrap()) + c.row;"),
+    dict(id='c02-rows-with-wrap', prop='C02', rule='R2.3', file=SCAN, old="let index = c.col * (seq.matrix().rows() - seq.wrap()) + self.row + c.row;", new="let index = c.col * seq.matrix().rows() + self.row + c.row;"),
+    dict(id='c02-strict-exact', prop='C02', rule='R2.4', file=SCAN, old="                        if score >= self.threshold {\n                            self.hits.push", new="                        if score > self.threshold {\n                            self.hits.push"),
+    dict(id='c02-strict-prefilter', prop='C02', rule='R2.4', file=SCAN, old="map_or(false, |m| m >= t)", new="map_or(false, |m| m > t)"),
+    dict(id='c02-threshold-rounded-up', prop='C02', rule='R2.4', file=SCAN, old="let t = self.dm.scale(self.threshold);", new="let t = self.dm.scale(self.threshold).saturating_add(1);"),
+    dict(id='c02-block-end-unclipped', prop='C02', rule='R2.5', file=SCAN, old="(self.row + self.block_size).min(seq.matrix().rows().saturating_sub(seq.wrap()));", new="(self.row + self.block_size).min(seq.matrix().rows());"),
+    dict(id='c02-advance-twice', prop='C02', rule='R2.5', file=SCAN, old="            // Proceed to the next block.\n            self.row += self.block_size;\n        }\n        self.hits.pop()", new="            // Proceed to the next block.\n            self.row += self.block_size + 1;\n        }\n        self.hits.pop()"),
+    dict(id='c02-map-or-true', prop='C02', rule='R2.1', file=SCAN, old="map_or(false, |m| m >= t)", new="map_or(true, |m| m >= t)"),
+    dict(id='c02-matches-strict', prop='C02', rule='R2.4', file=SCAN, old="if self.pipeline.max(&self.dscores).map_or(false, |m| m >= t) {", new="if matches!(self.pipeline.max(&self.dscores), Some(m) if m > t) {"),
+    dict(id='c03-best-discrete-up', prop='C03', rule='R3.1', file=SCAN, old="best_discrete = self.dm.scale(score);", new="best_discrete = dscore;"),
+    dict(id='c03-first-candidate', prop='C03', rule='R3.4', file=SCAN, old="} else if score >= self.threshold {", new="} else {"),
+    dict(id='c03-replace-on-lower', prop='C03', rule='R3.4', file=SCAN, old="if (score > hit.score) | (score == hit.score && index > hit.position) {", new="if (score < hit.score) | (score == hit.score && index > hit.position) {"),
+    dict(id='c03-seed-unfiltered', prop='C03', rule='R3.3', file=SCAN, old="            .filter(|hit| hit.score >= self.threshold)\n", new=""),
+    dict(id='c03-bound-removed', prop='C03', rule='R3.2', file=SCAN, old="if dscore >= best_discrete && index < self.dscores.max_index() {", new="if dscore >= best_discrete {"),
+    dict(id='c03-strict-dscore', prop='C03', rule='R3.1', file=SCAN, old="if dscore >= best_discrete && index", new="if dscore > best_discrete && index"),
+    dict(id='c03-scale-other-matrix', prop='C03', rule='R3.1', file=SCAN, old="            None => self.dm.scale(self.threshold),", new="            None => self.dm.scale(self.threshold + 1.0),"),
+    # ---- C08
+    dict(id='c08-ceil-to-round', prop='C08', rule='R8.1', file=PWM, old="((pssm[i][j] - offsets[i]) / factor).ceil() as u8", new="((pssm[i][j] - offsets[i]) / factor).round() as u8"),
+    dict(id='c08-ceil-to-floor', prop='C08', rule='R8.1', file=PWM, old="((pssm[i][j] - offsets[i]) / factor).ceil() as u8", new="((pssm[i][j] - offsets[i]) / factor).floor() as u8"),
+    dict(id='c08-scale-ceil', prop='C08', rule='R8.2', file=PWM, old="((score - self.offset) / self.factor).floor() as u8", new="((score - self.offset) / self.factor).ceil() as u8"),
+    dict(id='c08-offset-field', prop='C08', rule='R8.1', file=PWM, old="            offsets,\n            offset,\n        }", new="            offsets,\n            offset: max_score,\n        }"),
+    dict(id='c08-factor-field', prop='C08', rule='R8.1', file=PWM, old="            data,\n            factor,\n            offsets,", new="            data,\n            factor: factor * 0.5,\n            offsets,"),
+    dict(id='c08-adds-to-add', prop='C08', rule='R8.3', file=AVX2, old="s = _mm256_adds_epu8(s, y);", new="s = _mm256_add_epi8(s, y);"),
+    dict(id='c08-score-position-wraps', prop='C08', rule='R8.3', file=PWM, old="score = score.saturating_add(row[s[pos + j].as_index()]);", new="score = score.wrapping_add(row[s[pos + j].as_index()]);"),
+    dict(id='c08-wrong-row-offset', prop='C08', rule='R8.1', file=PWM, old="((pssm[i][j] - offsets[i]) / factor).ceil() as u8", new="((pssm[i][j] - offsets[0]) / factor).ceil() as u8"),
+    dict(id='c08-prefilter-up-threshold', prop='C08', rule='R8.4', file=SCAN, old="best_discrete = self.dm.scale(score);", new="best_discrete = dscore;"),
     # ---- C09
     dict(id='c09-rescale-unguarded', prop='C09', rule='R9.1', file=PWM, old="                    if new_freqs[j] == 0.0 {\n                        row[j] = 0.0;\n                    } else {\n                        row[j] *= old_freqs[j] / new_freqs[j];\n                    }", new="                    row[j] *= old_freqs[j] / new_freqs[j];"),
     dict(id='c09-to-weight-unguarded', prop='C09', rule='R9.1', file=PWM, old="                if f == 0.0 {\n                    dst[j] = 0.0;\n                } else {\n                    dst[j] = x / f;\n                }", new="                dst[j] = x / f;"),
@@ -49,6 +83,11 @@ MUTANTS = [
 ]
 
 BENIGN = [
+    dict(id='c08-factor-256', prop='C08', file=PWM, old="let factor = (max_score - offset) / (u8::MAX as f32);", new="let factor = (max_score - offset) / 256.0;"),
+    dict(id='c08-offsets-are-maxima', prop='C08', file=PWM, old="                    .min_by(|x, y| x.partial_cmp(y).unwrap())\n                    .unwrap()\n            })\n            .cloned()", new="                    .max_by(|x, y| x.partial_cmp(y).unwrap())\n                    .unwrap()\n            })\n            .cloned()"),
+    dict(id='c02-if-let-form', prop='C02', file=SCAN, old="if self.pipeline.max(&self.dscores).map_or(false, |m| m >= t) {", new="if matches!(self.pipeline.max(&self.dscores), Some(m) if m >= t) {"),
+    dict(id='c02-block-size-128', prop=['C02', 'C03'], file=SCAN, old="block_size: 256,", new="block_size: 128,"),
+    dict(id='c02-bound-via-len', prop='C02', file=SCAN, old="if index < self.dscores.max_index() {", new="if index + self.pssm.as_ref().len() <= seq.len() {"),
     dict(id='c09-guard-inverted-form', prop='C09', file=PWM, old="                if f == 0.0 {\n                    dst[j] = 0.0;\n                } else {\n                    dst[j] = x / f;\n                }", new="                if f != 0.0 {\n                    dst[j] = x / f;\n                } else {\n                    dst[j] = 0.0;\n                }"),
     dict(id='c09-min-full-range', prop='C09', file=PWM, old="row[..A::K::USIZE - 1]\n                    .iter()\n                    .max_by(|a, b|", new="row[..]\n                    .iter()\n                    .max_by(|a, b|"),
     dict(id='c19-resize-order', prop='C19', file=DENSE, old="        self.data.resize_with(rows, Default::default);\n        self.rows = rows;", new="        self.rows = rows;\n        self.data.resize_with(rows, Default::default);"),
